@@ -457,7 +457,7 @@ static int nsync_mallocs;
 void *vf_malloc (size_t n, const char *func) {
 	void *p;
 	nsync_mallocs++;
-	if (cfg.fail_malloc_at != 0 && nsync_mallocs == cfg.fail_malloc_at) {
+	if ((cfg.fail_malloc_at != 0 && nsync_mallocs == cfg.fail_malloc_at) || (cfg.fail_malloc_from != 0 && nsync_mallocs >= cfg.fail_malloc_from)) {
 		vf_log ("malloc NULL %s", func);
 		return (NULL);
 	}
